@@ -18,6 +18,7 @@ PRE = ('From Coq Require Import List ZArith Bool SpecFloat.\n'
        'Spec.ValidatorsSpec Model.ValidatorsEval.\nImport ListNotations.')
 VEXC, CONVERR = [0, 13, 0], [0, 13, 2]
 INT_LIMIT = 10 ** 4000     # JSON carries ints above this in hex (str() of an int of more than 4300 digits raises)
+QUICK_BUDGET_S = 85       # wall-clock budget of a quick run when a broken obligation triggers the intensified search
 DIGIT_LIMIT = 10 ** 4300   # CPython's int<->str digit limit: modelled for convert_value and the primitives; the validators'
                            # rejection messages (f-strings over the value) are not modelled - see stream digitlimit
 inf, nan = math.inf, math.nan
@@ -238,6 +239,9 @@ def coq_term(c, impl):
         return None
     if k == 'validate':
         return f'eval_validate {c_tables(impl["oracles"])} {c_validator(c["w"])} {c_value(c["v"])}'
+    if k == 'validate_seq':
+        tb, w = c_tables(impl['oracles']), c_validator(c['w'])
+        return '(' + ' ++ '.join(f'eval_validate {tb} {w} {c_value(v)}' for v in c['vs']) + ')'
     if k == 'convert':
         return f'eval_convert {c_tables(impl["oracles"])} {c_value(c["v"])} {TT[c["t"]]}'
     if k == 'roundtrip':
@@ -598,71 +602,167 @@ def rand_leaf(rng):
     return {'k': 'Unix'}, lambda: rng.choice([I(rng.choice(UNIX_INTS)), S(rng.choice(UNIX_STRS)), F(rng.choice(FLOATS))])
 
 
-def gen_nested(rng, n, max_depth):
+def make_tree(rng, max_depth, need_container=False):
+    """(validator tree, generator of values shaped for it); one enum per tree"""
+    enum = rng.choice(ENUMS)
+
+    def leaf():
+        w, g = rand_leaf(rng)
+        if w is None:
+            w = {'k': 'IsEnum', 'members': enum['members'], 'int': enum['int'], 'convert': rng.choice([True, False, None]),
+                 'upper': rng.choice([True, False, None])}
+            pool = [I(1), I(2), F(1.0), S('1'), S('go'), S('A'), S('x'), N(), F(2.5), B(True), I(7), S(' 2')]
+            g = lambda: rng.choice(pool)
+        return w, g
+
+    def tree(depth):
+        r = rng.random()
+        if depth >= max_depth or (r < 0.35 and not (need_container and depth == 0)):
+            return leaf()
+        if r < 0.7:
+            m = rng.choice([0, 1, 1, 2, 3])
+            kids = [tree(depth + 1) for _ in range(m)]
+            # members of an IntEnum are ints in Python but opaque in the model: a converting IsEnum(IntEnum) is only
+            # generated as the last child of a chain, so that no member is handed on to another validator
+            for kw, _ in kids[:-1]:
+                if kw['k'] == 'IsEnum' and kw['int']:
+                    kw['convert'] = False
+            w = {'k': 'ForEach', 'cs': [k[0] for k in kids], 'single': rng.random() < 0.3, 'tuple': rng.random() < 0.2}
+
+            def g():
+                cnt = rng.choice([0, 1, 2, 2, 3, 4])
+                src = kids if kids else [leaf()]
+                items = [rng.choice(src)[1]() for _ in range(cnt)]
+                q = rng.random()
+                if q < 0.6:
+                    return L(items)
+                if q < 0.8:
+                    return T(items)
+                if q < 0.86:
+                    seen, ks = set(), []
+                    for x in items:      # distinct (by ==) hashable keys: keep ints/strs only, one each
+                        sig = json.dumps(x)
+                        if x[0] in ('int', 'str') and sig not in seen:
+                            seen.add(sig)
+                            ks.append(x)
+                    return D(ks, [N()] * len(ks))
+                if q < 0.92:
+                    return S(rand_str(rng, cnt, ['a', ' ', '1', '@']))
+                if q < 0.96:
+                    return BY(bytes(rng.randrange(256) for _ in range(cnt)))
+                return rng.choice([I(5), N(), OBJ(0), F(1.5)])
+            return w, g
+        m = rng.choice([0, 1, 2, 2, 3])
+        kids = [tree(depth + 1) for _ in range(m)]
+        w = {'k': 'Composite', 'cs': [k[0] for k in kids]}
+        return w, (lambda: rng.choice(kids)[1]()) if kids else (lambda: rng.choice([I(1), S('x'), N()]))
+
+    return tree(0)
+
+
+def converting_leaf(rng):
+    """a child whose result differs from its input (conversion), with items it accepts and items it rejects"""
+    k = rng.choice(['IsEnum', 'IsEnumInt', 'NotEmpty', 'Email', 'Iso', 'Unix', 'IsUuid'])
+    if k == 'IsEnum':
+        return ({'k': 'IsEnum', 'members': [S('RED'), S('GO'), S('A')], 'int': False, 'convert': rng.choice([True, None]), 'upper': rng.choice([True, None])},
+                lambda: S(rng.choice(['RED', 'red', 'go', 'a', 'x', ' red'])))
+    if k == 'IsEnumInt':
+        return ({'k': 'IsEnum', 'members': [I(1), I(2), I(5)], 'int': True, 'convert': rng.choice([True, None]), 'upper': None},
+                lambda: rng.choice([I(1), S('2'), F(5.0), I(3), S(' 5 '), B(True)]))
+    if k == 'NotEmpty':
+        return {'k': 'NotEmpty', 'strip': rng.choice([True, None])}, lambda: S(rng.choice([' abc ', ' ab', 'a ', '   ', '', 'abc', '\t12345 ']))
+    if k == 'Email':
+        return {'k': 'Email', 'pat': None, 'pp': rng.choice(['rev', ['const', [ord('k')]]])}, lambda: S(rng.choice(['a@b.c', 'ab@cd.ef', 'a@b', ' a@b.c']))
+    if k == 'Iso':
+        return {'k': 'Iso'}, lambda: S(rng.choice(['2020-01-01', '2020-01-01T10:00:00', '2020-13-01', 'x']))
+    if k == 'Unix':
+        return {'k': 'Unix'}, lambda: rng.choice([I(0), S('1e3'), F(1.5), S('abc'), I(10 ** 14)])
+    return {'k': 'IsUuid', 'convert': True}, lambda: S(rng.choice([U0, U0.upper(), U0[:-1], 'x']))
+
+
+def plain_leaf(rng):
+    k = rng.choice(['MaxLength', 'MinLength', 'MatchPattern', 'Min', 'Max'])
+    if k in ('MaxLength', 'MinLength'):
+        return {'k': k, 'n': rng.choice([1, 2, 3, 4])}, lambda: S(rng.choice(['', 'a', 'abc', ' abc ', 'abcd']))
+    if k == 'MatchPattern':
+        return {'k': k, 'pat': rng.choice([r'[0-9]+$', r'a+b', r'\s+'])}, lambda: S(rng.choice(['12', 'ab', ' a', 'x', 'aab ']))
+    return {'k': k, 'bound': I(3), 'incl': rng.choice([True, False, None])}, lambda: rng.choice([I(2), I(3), I(4), F(3.0)])
+
+
+def gen_direct(rng, n):
+    """a Composite handed DIRECTLY (not inside a list) to ForEach / to another Composite, with converting children: ForEach must
+    use it as ONE child (every child of the Composite sees the original item, the item is returned unchanged), and a Composite
+    iterating another Composite runs that one's children"""
     cases = []
     while len(cases) < n:
-        enum = rng.choice(ENUMS)
-
-        def leaf():
-            w, g = rand_leaf(rng)
-            if w is None:
-                w = {'k': 'IsEnum', 'members': enum['members'], 'int': enum['int'], 'convert': rng.choice([True, False, None]),
-                     'upper': rng.choice([True, False, None])}
-                pool = [I(1), I(2), F(1.0), S('1'), S('go'), S('A'), S('x'), N(), F(2.5), B(True), I(7), S(' 2')]
-                g = lambda: rng.choice(pool)
-            return w, g
-
-        def tree(depth):
-            """(validator, value generator) with the value shaped for the validator"""
-            r = rng.random()
-            if depth >= max_depth or r < 0.35:
-                return leaf()
-            if r < 0.7:
-                m = rng.choice([0, 1, 1, 2, 3])
-                kids = [tree(depth + 1) for _ in range(m)]
-                # members of an IntEnum are ints in Python but opaque in the model: a converting IsEnum(IntEnum) is only
-                # generated as the last child of a chain, so that no member is handed on to another validator
-                for kw, _ in kids[:-1]:
-                    if kw['k'] == 'IsEnum' and kw['int']:
-                        kw['convert'] = False
-                w = {'k': 'ForEach', 'cs': [k[0] for k in kids], 'single': rng.random() < 0.3, 'tuple': rng.random() < 0.2}
-
-                def g():
-                    cnt = rng.choice([0, 1, 2, 2, 3, 4])
-                    src = kids if kids else [leaf()]
-                    items = [rng.choice(src)[1]() for _ in range(cnt)]
-                    q = rng.random()
-                    if q < 0.6:
-                        return L(items)
-                    if q < 0.8:
-                        return T(items)
-                    if q < 0.86:
-                        hk = [x for x in items if x[0] in ('int', 'str', 'none', 'bool', 'float', 'tuple', 'bytes') and
-                              (x[0] != 'tuple' or not x[1])]
-                        seen, ks = set(), []
-                        for x in hk:      # distinct (by ==) hashable keys: keep ints/strs only, one each
-                            sig = json.dumps(x)
-                            if x[0] in ('int', 'str') and sig not in seen:
-                                seen.add(sig)
-                                ks.append(x)
-                        return D(ks, [N()] * len(ks))
-                    if q < 0.92:
-                        return S(rand_str(rng, cnt, ['a', ' ', '1', '@']))
-                    if q < 0.96:
-                        return BY(bytes(rng.randrange(256) for _ in range(cnt)))
-                    return rng.choice([I(5), N(), OBJ(0), F(1.5)])
-                return w, g
-            m = rng.choice([0, 1, 2, 2, 3])
-            kids = [tree(depth + 1) for _ in range(m)]
-            w = {'k': 'Composite', 'cs': [k[0] for k in kids]}
-            return w, (lambda: rng.choice(kids)[1]()) if kids else (lambda: rng.choice([I(1), S('x'), N()]))
-
-        w, g = tree(0)
-        if w['k'] not in ('ForEach', 'Composite'):
-            continue
-        v = g()
-        # keys equal under == (1, 1.0, True) collapse in a real dict: keep generated dict keys distinct ints/strs
+        kids = [converting_leaf(rng) for _ in range(rng.choice([1, 1, 2]))] + [plain_leaf(rng) for _ in range(rng.choice([0, 1, 1, 2]))]
+        rng.shuffle(kids)
+        inner = {'k': 'Composite', 'cs': [k[0] for k in kids]}
+        items = [rng.choice(kids)[1]() for _ in range(rng.choice([1, 1, 2, 3]))]
+        r = rng.random()
+        if r < 0.6:
+            w = {'k': 'ForEach', 'cs': [inner], 'single': True, 'tuple': False}
+            v = rng.choice([L, T])(items)
+        elif r < 0.8:
+            w = {'k': 'Composite', 'cs': [inner], 'direct': True}
+            v = items[0]
+        else:      # both: ForEach(Composite(<Composite>))
+            w = {'k': 'ForEach', 'cs': [{'k': 'Composite', 'cs': [inner], 'direct': True}], 'single': True, 'tuple': False}
+            v = L(items)
         cases.append(V('validate', w, v, 'nested'))
+    return cases
+
+
+def gen_nested(rng, n, max_depth):
+    cases = gen_direct(rng, n // 5)
+    while len(cases) < n:
+        w, g = make_tree(rng, max_depth, need_container=True)
+        cases.append(V('validate', w, g(), 'nested'))
+    return cases
+
+
+U1 = '00000000-0000-0000-0000-000000000001'
+SEQ_SEEDS = [     # (validator, [rejected, accepted, rejected, accepted]) for every kind, also nested
+    ({'k': 'Min', 'bound': I(5), 'incl': True}, [I(4), I(5), F(4.5), I(6)]),
+    ({'k': 'Max', 'bound': I(5), 'incl': False}, [I(5), I(4), I(6), F(4.5)]),
+    ({'k': 'MinLength', 'n': 2}, [S('a'), S('ab'), L([]), L([I(1), I(2)])]),
+    ({'k': 'MaxLength', 'n': 2}, [S('abc'), S('ab'), I(5), T([])]),
+    ({'k': 'NotEmpty', 'strip': True}, [S(' '), S(' x '), L([]), S('y')]),
+    ({'k': 'Email', 'pat': None, 'pp': 'rev'}, [S('x'), S('a@b.c'), S('a@b'), S('ab@cd.ef')]),
+    ({'k': 'IsUuid', 'convert': True}, [S('x'), S(U0), S(U0[:-1]), S(U1)]),
+    ({'k': 'IsEnum', 'members': [I(1), I(2)], 'int': True, 'convert': True, 'upper': True}, [I(9), I(1), S('x'), S('2')]),
+    ({'k': 'IsEnum', 'members': [S('GO'), S('A')], 'int': False, 'convert': None, 'upper': None}, [S('b'), S('go'), N(), S('A')]),
+    ({'k': 'MatchPattern', 'pat': r'[0-9]+$'}, [S('a'), S('a1'), S('1a'), S('12')]),
+    ({'k': 'Iso'}, [S('x'), S('2020-01-01'), I(5), S('2020-01-01T10:00:00')]),
+    ({'k': 'Unix'}, [S('abc'), I(0), N(), S('1e3')]),
+    ({'k': 'ForEach', 'cs': [{'k': 'Min', 'bound': I(5), 'incl': True}], 'single': True, 'tuple': False}, [L([I(6), I(4)]), L([I(6)]), I(5), T([])]),
+    ({'k': 'ForEach', 'cs': [{'k': 'NotEmpty', 'strip': True}, {'k': 'MaxLength', 'n': 3}], 'single': False, 'tuple': False},
+     [L([S(' abcd ')]), L([S(' abc ')]), L([S(' ')]), L([S('a'), S(' b')])]),
+    ({'k': 'Composite', 'cs': [{'k': 'Min', 'bound': I(5), 'incl': True}, {'k': 'Max', 'bound': I(9), 'incl': True}]}, [I(4), I(6), I(10), I(9)]),
+    ({'k': 'Composite', 'cs': [{'k': 'NotEmpty', 'strip': True}, {'k': 'MaxLength', 'n': 3}]}, [S(' abc '), S('abc'), S(' '), S('a')]),
+    ({'k': 'ForEach', 'cs': [{'k': 'Composite', 'cs': [{'k': 'NotEmpty', 'strip': True}, {'k': 'MaxLength', 'n': 3}]}], 'single': True, 'tuple': False},
+     [L([S(' abc ')]), L([S(' a ')]), L([S('ab'), S('')]), L([])]),
+    ({'k': 'Composite', 'cs': [{'k': 'ForEach', 'cs': [{'k': 'Email', 'pat': None, 'pp': 'id'}], 'single': True, 'tuple': False},
+                               {'k': 'MinLength', 'n': 1}]}, [L([S('x')]), L([S('a@b.c')]), L([]), T([S('a@b.c'), S('c@d.e')])]),
+]
+
+
+def gen_sequences(rng, n, max_depth):
+    """ONE validator instance used for a sequence of values (reject -> accept -> reject ...): every call is judged against the
+    specification of that single call (a validator has no history)"""
+    cases = []
+    for w, vs in SEQ_SEEDS:
+        cases.append({'kind': 'validate_seq', 'w': w, 'vs': vs, 'stream': 'sequence'})
+        cases.append({'kind': 'validate_seq', 'w': w, 'vs': vs[1:] + vs[:1], 'stream': 'sequence'})
+    while len(cases) < n:
+        r = rng.random()
+        if r < 0.25:
+            ds = gen_direct(rng, rng.choice([2, 3]))
+            w, vs = ds[0]['w'], [d['v'] for d in ds]      # the other draws only contribute their values
+        else:
+            w, g = make_tree(rng, max_depth, need_container=r < 0.7)
+            vs = [g() for _ in range(rng.choice([2, 3, 3, 4]))]
+        cases.append({'kind': 'validate_seq', 'w': w, 'vs': vs, 'stream': 'sequence'})
     return cases
 
 
@@ -803,13 +903,13 @@ def gen_prims(rng, n):
 
 # cases per stream: (quick, thorough); quick stays within ~60 s wall on a loaded machine, thorough is ~15x larger
 VOLUME = {'bounds': (900, 16800), 'lengths': (350, 6000), 'notempty': (300, 4200), 'email': (400, 7200), 'uuid': (200, 3000),
-          'enum': (450, 7200), 'pattern': (300, 4800), 'iso': (160, 2400), 'unix': (300, 4800), 'nested': (600, 10800),
+          'enum': (450, 7200), 'pattern': (300, 4800), 'iso': (160, 2400), 'unix': (300, 4800), 'nested': (600, 10800), 'sequence': (220, 3600),
           'convert': (900, 18000), 'roundtrip': (400, 6000), 'prims': (800, 14400)}
 
 
 def gen_cases(rng, tier, scale):
     q = tier == 'quick'
-    n = {k: (v[0] if q else v[1]) * scale for k, v in VOLUME.items()}
+    n = {k: max(1, int((v[0] if q else v[1]) * scale)) for k, v in VOLUME.items()}
     cases = []
     cases += gen_bounds(rng, n['bounds'])
     cases += gen_lengths(rng, n['lengths'])
@@ -821,6 +921,7 @@ def gen_cases(rng, tier, scale):
     cases += gen_iso(rng, n['iso'])
     cases += gen_unix(rng, n['unix'])
     cases += gen_nested(rng, n['nested'], 3 if q else 4)
+    cases += gen_sequences(rng, n['sequence'], 2 if q else 3)
     cases += gen_convert(rng, n['convert'])
     cases += gen_roundtrip(rng, n['roundtrip'])
     cases += gen_prims(rng, n['prims'])
@@ -838,6 +939,28 @@ def is_exc(o, path):
 
 
 TYPE_TAG = {'bool': ('bool',), 'int': ('int', 'bool'), 'float': ('float',), 'str': ('str',), 'list': ('list',), 'dict': ('dict',)}
+
+
+def judge_call(o, op, m_out, s_ver, m_outp):
+    """one validate call: implementation outcome o (and op of validate_param) against model and specification
+    -> (correspondence_ok, property_ok, what, observation)"""
+    i_out, i_outp = enc_outcome(o), enc_outcome(op)
+    corr = i_out == m_out and i_outp == m_outp
+    what = ''
+    if not corr:
+        what = 'model and implementation disagree'
+        if m_out[:3] == [1, 1, 99] or -7 in m_out:
+            what = 'oracle table incomplete (harness)'
+    obs = ('accepted' if o[0] == 'ok' else 'rejected' if is_exc(o, VEXC) else 'leak:' + o[2]) + \
+        '/' + {0: 'outside', 1: 'reject', 2: 'accept'}.get(s_ver[0], '?')
+    shown = o[:1] + o[2:] if o[0] == 'exc' else o
+    if s_ver[0] == 1 and not is_exc(o, VEXC):
+        return corr, False, f'the value does not satisfy the documented predicate, yet the call gave {shown}', obs
+    if s_ver[0] == 2 and (o[0] != 'ok' or enc_value(o[1]) != s_ver[1:]):
+        return corr, False, f'the value satisfies the documented predicate, the call should return the documented result but gave {shown}', obs
+    if s_ver[0] != 0 and op[0] != o[0]:
+        return corr, False, 'validate_param and validate disagree', obs
+    return corr, True, what, obs
 
 
 def judge(c, impl, model):
@@ -858,24 +981,23 @@ def judge(c, impl, model):
         return False, True, 'model evaluation failed'
     if k == 'validate':
         m_out, s_ver, m_outp = sections(model)
-        i_out, i_outp = enc_outcome(impl['out']), enc_outcome(impl['outp'])
-        corr = i_out == m_out and i_outp == m_outp
-        what = ''
-        if not corr:
-            what = 'model and implementation disagree'
-            if m_out[:3] == [1, 1, 99] or -7 in m_out:
-                what = 'oracle table incomplete (harness)'
-        o = impl['out']
-        # what was observed, for the matchers of the known findings
-        c['_obs'] = ('accepted' if o[0] == 'ok' else 'rejected' if is_exc(o, VEXC) else 'leak:' + o[2]) + \
-            '/' + {0: 'outside', 1: 'reject', 2: 'accept'}.get(s_ver[0], '?')
-        if s_ver[0] == 1 and not is_exc(o, VEXC):
-            return corr, False, f'the value does not satisfy the documented predicate, yet the call gave {o[:1] + o[2:] if o[0] == "exc" else o}'
-        if s_ver[0] == 2 and (o[0] != 'ok' or enc_value(o[1]) != s_ver[1:]):
-            return corr, False, f'the value satisfies the documented predicate, the call should return the documented result but gave {o[:1] + o[2:] if o[0] == "exc" else o}'
-        if s_ver[0] != 0 and impl['outp'][0] != o[0]:
-            return corr, False, 'validate_param and validate disagree'
-        return corr, True, what
+        corr, prop, what, c['_obs'] = judge_call(impl['out'], impl['outp'], m_out, s_ver, m_outp)
+        return corr, prop, what
+    if k == 'validate_seq':
+        secs = sections(model)
+        if len(secs) != 3 * len(c['vs']) or len(impl['outs']) != len(c['vs']):
+            return False, True, 'harness: wrong number of results for the sequence'
+        corr_all, obs = True, []
+        for n_, v in enumerate(c['vs']):
+            corr, prop, what, ob = judge_call(impl['outs'][n_], impl['outps'][n_], *secs[3 * n_:3 * n_ + 3])
+            obs.append(ob)
+            corr_all = corr_all and corr
+            if not prop:
+                c['_obs'] = obs
+                c['_failing_call'] = n_
+                return corr_all, False, f'call {n_ + 1} of {len(c["vs"])} on the same validator instance (value {json.dumps(v)[:120]}): {what}'
+        c['_obs'] = obs
+        return corr_all, True, '' if corr_all else 'model and implementation disagree'
     if k == 'convert':
         m_out, s_out = sections(model)
         o = impl['out']
@@ -1023,7 +1145,10 @@ def run(tier, seed, replay=None):
             st = c.get('stream', 'replay')
             hist[st] = hist.get(st, 0) + 1
             corr, prop, what = judge(c, i, m)
-            if c['kind'] == 'validate':
+            if c['kind'] == 'validate_seq':
+                kinds[c['w']['k']] = kinds.get(c['w']['k'], 0) + 1
+                oc = 'sequence/' + str(len(c['vs']))
+            elif c['kind'] == 'validate':
                 kinds[c['w']['k']] = kinds.get(c['w']['k'], 0) + 1
                 ver = {0: 'outside-domain', 1: 'reject', 2: 'accept'}.get(sections(m)[1][0], '?') if m else 'no-model'
                 oc = ver + '/' + (i['out'][0] if i and 'out' in i else 'lost') + (':' + i['out'][2] if i and 'out' in i and i['out'][0] == 'exc' else '')
@@ -1037,19 +1162,30 @@ def run(tier, seed, replay=None):
             if corr and prop:
                 ck.traces_validated += 1
             if not prop:
+                if c['kind'] == 'validate_seq':      # shrink: the calls after the failing one are irrelevant
+                    c = dict(c, vs=c['vs'][:c['_failing_call'] + 1])
                 ck.violation(what, c, stream=st, extra={'impl': {k: v for k, v in (i or {}).items() if k != 'oracles'}, 'model': m},
                              matcher=matcher)
             elif not corr:
                 disagreements.setdefault(st, []).append({'case': c, 'impl': i, 'model': m, 'what': what})
 
     consume(cases, impl, model)
-    # a proof / translation obligation is broken and the ordinary volume shows no failing input: search harder
+    # a proof / translation obligation is broken and the ordinary volume shows no failing input: search harder - in the quick
+    # tier only as far as the time budget (~90 s for the whole run) allows, at the rate the first pass has shown
     if replay is None and ck.scale() > 1 and not ck.violations:
-        more = gen_cases(ck.rng, tier, ck.scale() - 1)
-        impl2, model2 = evaluate(ck, more)
-        consume(more, impl2, model2)
-        cases, impl, model = cases + more, impl + impl2, model + model2
-        ck.notes.append(f'search intensified: {len(more)} additional cases')
+        extra = ck.scale() - 1
+        if tier == 'quick':
+            spent = max(time.time() - t1, 1.0)
+            left = QUICK_BUDGET_S - (time.time() - ck.t0)
+            extra = max(0.0, min(extra, 0.8 * left / spent))
+        if extra >= 0.25:
+            more = gen_cases(ck.rng, tier, extra)
+            impl2, model2 = evaluate(ck, more)
+            consume(more, impl2, model2)
+            cases, impl, model = cases + more, impl + impl2, model + model2
+            ck.notes.append(f'search intensified: {len(more)} additional cases (factor {extra:.2f})')
+        else:
+            ck.notes.append('search not intensified: time budget of the quick tier used up')
     t_eval = time.time() - t1
     ck.violations.sort(key=lambda v: case_size(v['case']))
     for st in sorted(set(hist) | set(disagreements)):
